@@ -35,7 +35,7 @@ FUNCTIONS = [
 STUBS = ["pathlib.Path.exists / mkdir under the scratch prefix -> symbolic file system; datetime.now() -> opaque clock token",
          "write primitives (np.save, np.savetxt, PIL Image.save, astropy writeto, DataFrame.to_csv) -> recorders honouring their documented overwrite contract",
          "glob.glob -> symbolic set of existing numbered files"]
-OUTSIDE = ["file contents and lossless read-back (astropy / numpy / PIL writers): C / third-party code", "OS-level atomicity of mkdir is assumed",
+OUTSIDE = ["the encoders (astropy / numpy / PIL) are C / third-party code: symbolic claims stop at what is handed to them, read-back is a concrete witness layer", "OS-level atomicity of mkdir is assumed",
            "HDF5 writer (h5py not installed)"]
 ASSUMPTIONS = ["at most 6 candidate directories exist or are created concurrently (bound of the loop exploration)"]
 EXPLANATION = "existence flags fork the real code's branches; oracle: no write primitive is reached for a target that exists on the path"
